@@ -195,6 +195,34 @@ func C16(p *ir.Program, r *report.R) {
 				G{"signature", "crypto.PubKey.VerifyBytes(*)"})
 		}
 	}
+	// (3b) nothing of the consensus state may change before the proposal's signature is verified
+	{
+		sp := p.Func("consensus", "ConsensusState.defaultSetProposal")
+		n := 0
+		ir.Instrs(sp, func(in ssa.Instruction) {
+			var what string
+			switch x := in.(type) {
+			case *ssa.Store:
+				a := ir.Render(x.Addr)
+				if strings.HasPrefix(a, "&cs.") {
+					what = "write " + strings.TrimPrefix(a, "&")
+				}
+			case *ssa.Call:
+				cn := ir.CalleeName(x)
+				if cn == "consensus.ConsensusState.enterNewRound" || strings.HasSuffix(cn, "Timer.Reset") {
+					what = "call " + cn
+				}
+			}
+			if what == "" {
+				return
+			}
+			n++
+			ok := ir.HasFact(ir.FactsAt(in), "crypto.PubKey.VerifyBytes(*,types.Proposal.SignBytes(proposal,cs.status.ChainID),proposal.Signature)")
+			r.Check("K1", csT+"defaultSetProposal/state-change-after-signature/"+what, p.InstrPos(in), ok,
+				"consensus state may be changed by a proposal only after its signature was verified")
+		})
+		c.MustFind("K1", csT+"defaultSetProposal/state-change-after-signature", sp, n, "state writes")
+	}
 	// (4) shared with C12: part admission
 	c12AddPart(c, "C16")
 	// (5) peer-supplied bit arrays: Bits and Elems are decoded independently, every BitArray
